@@ -121,7 +121,7 @@ def run(ctx):
         keys = markers.Keys(sess.p)
         wd = '/work' if ext else None
         rm = reqmodel.ReqModel(sess.p, keys, wd=wd)
-        texts = list(ODD) + list(reqgen.NEAR_GRAMMAR)
+        texts = list(ODD) + list(reqgen.NEAR_GRAMMAR) + ['numpy>=1 ; ' + t for t in markers.DNF_SHAPES] + ['pip @ https://h/pip-1.3.1.zip ; ' + t for t in markers.DNF_SHAPES[::3]]
         for i in range(n if not ext else n // 3):
             d = reqgen.gen_derivation(ctx.rng)
             texts.append((reqgen.render(ctx.rng, d, loose=True), d))
